@@ -58,7 +58,7 @@ Theorem C13_conv_datetime_sound : forall o s x, conv_datetime o (JStr s) = Ok (S
 Proof. exact conv_datetime_sound. Qed.
 Print Assumptions C13_conv_datetime_sound.
 Theorem C13_conv_uuid_sound : forall o s x, conv_uuid o (JStr s) = Ok (Some x) ->
-  uuid_ok o s = true /\ raw x = JStr s /\ (plain_sq s = true -> eval_code (code x) = Some (PVUuid s)).
+  uuid_ok o s = true /\ raw x = JStr s /\ (repr_printable s = true -> eval_code (code x) = Some (PVUuid s)).
 Proof. exact conv_uuid_sound. Qed.
 Print Assumptions C13_conv_uuid_sound.
 
@@ -111,8 +111,6 @@ Theorem C13_int_nonfinite_crash_refuted : convert_value wit_oracles CInt (JStr [
 Proof. exact int_nonfinite_crash_refuted. Qed.
 Theorem C13_default_dq_refuted : exists x, convert_value wit_oracles CStr (JStr [97;34;98]) = Ok (Some x) /\ eval_code (code x) <> Some (PVStr [97;34;98]).
 Proof. exact default_dq_refuted. Qed.
-Theorem C13_uuid_raw_refuted : exists o s x, conv_uuid o (JStr s) = Ok (Some x) /\ eval_code (code x) = None.
-Proof. exact conv_uuid_raw_refuted. Qed.
 Theorem C13_union_first_match_refuted : exists x,
   convert_value wit_oracles (CUnion [CStr; CInt]) (JInt 3) = Ok (Some x) /\ eval_code (code x) = Some (PVStr [51]).
 Proof. exact union_first_match_refuted. Qed.
@@ -177,3 +175,16 @@ Proof. exact merge_last_default_sound. Qed.
 Print Assumptions C13_merge_last_default_sound.
 Theorem C13_merge_narrowed_default_rejected : exists o cur ov, common o cur [ov] = MErr /\ mp_dflt ov <> None.
 Proof. exact merge_narrowed_default_rejected. Qed.
+
+(* ---- the default's journey through the null-member rewrite of EnumProperty.build / LiteralEnumProperty.build ---- *)
+(* the rewritten union oneOf[null, enum] carries the outer default: it is exactly what the null-free enum makes of it *)
+Theorem C13_nullable_default_carried : forall o inner pd,
+  conv_none pd = Err -> nullable_enum_default o inner pd = convert_value o inner pd.
+Proof. exact nullable_default_carried. Qed.
+Print Assumptions C13_nullable_default_carried.
+Theorem C13_nullable_default_not_dropped : forall o vt cls ms vals pd d,
+  pd <> JNull -> conv_none pd = Err ->
+  (nullable_enum_default o (CEnum vt cls ms) pd = Ok d -> d <> None) /\
+  (nullable_enum_default o (CLitEnum vt vals) pd = Ok d -> d <> None).
+Proof. exact nullable_default_not_dropped. Qed.
+Print Assumptions C13_nullable_default_not_dropped.
